@@ -568,6 +568,7 @@ class ClockTask():
         try:
             _libsc3.main._update_logical_time(time)
             beats = self.clock.secs2beats(time)
+            _libsc3.main._in_awake_call = True
             delta = self.task.__awake__(self.clock)
             if isinstance(delta, (int, float)) and not isinstance(delta, bool):
                 self.beats = beats + delta
@@ -579,6 +580,8 @@ class ClockTask():
                 '%s(%s) scheduled on ClockScheduler',
                 type(self.task).__name__, self.task.func.__qualname__,
                 exc_info=1)
+        finally:
+            _libsc3.main._in_awake_call = False
 
 
 ### Quant.sc ###
